@@ -85,6 +85,9 @@ func runC20(t *testing.T, seed uint64, planJSON []byte, tier string) (res *Resul
 		plan.GoschedP = simkit.Pick(g, []int{0, 10, 50})
 	}
 	tape := simkit.NewTape(seed)
+	stallDone := make(chan struct{})
+	defer close(stallDone)
+	startStallObserver("C20", seed, func() []byte { b, _ := json.Marshal(plan); return b }, *flagOut, 25*time.Second, stallDone)
 	res.Harness = runBubble(t, func(t *testing.T) {
 		w := bootAT(seed, tape, plan.Cfg, simnet.Config{FragmentPct: 5})
 		sim := w.Sim
@@ -109,6 +112,13 @@ func runC20(t *testing.T, seed uint64, planJSON []byte, tier string) (res *Resul
 		}
 		mk("t_at", plan.Workers)
 		mk("t_xa", plan.Workers)
+		// a table whose metadata the client cannot load: the functional key part
+		// of its second index has no column name in information_schema
+		w.Srv.CreateTable(atSchema, "t_fx", []*simdb.Column{
+			simdb.NewColumn("id", "int", "not null"),
+			simdb.NewColumn("v", "int", "not null"),
+		}, []string{"id"}, []*simdb.Index{{Name: "ix_fx", Cols: []string{""}}})
+		w.Srv.LoadRows(atSchema, "t_fx", [][]interface{}{{int64(1), int64(0)}})
 		w.Net.Open(TCAddr)
 		sim.Run(func() bool { return w.TC.SessionIsTM(0) && sim.Enabled() == 0 })
 		var atDB, xaDB *sql.DB
@@ -143,11 +153,12 @@ func runC20(t *testing.T, seed uint64, planJSON []byte, tier string) (res *Resul
 		// one transaction of a kind; returns whether it committed
 		forceKind := ""
 		one := func(g *simkit.Gen, wid, k int) (kind string, committed bool, err error) {
-			kind = []string{"at", "at", "xa", "tcc", "at-tx", "local"}[g.Intn(6)]
+			kind = []string{"at", "at", "xa", "tcc", "at-tx", "local", "at", "xa", "tcc", "at-tx", "local", "at-fx"}[g.Intn(12)]
 			if forceKind != "" {
 				kind = forceKind
 			}
 			wantRollback := g.Prob(0.3)
+			fxFailed := false
 			if kind == "local" {
 				_, err = atDB.ExecContext(context.Background(), "UPDATE t_at SET note = ? WHERE id = ?", fmt.Sprintf("w%d-%d", wid, k), wid)
 				return kind, false, err
@@ -157,6 +168,13 @@ func runC20(t *testing.T, seed uint64, planJSON []byte, tier string) (res *Resul
 				case "at":
 					if _, e := atDB.ExecContext(ctx, "UPDATE t_at SET v = v + 1 WHERE id = ?", wid); e != nil {
 						return e
+					}
+				case "at-fx":
+					// must come back, with whatever the client makes of the table
+					// (today: an error, its metadata loader cannot read the index)
+					if _, e := atDB.ExecContext(ctx, "UPDATE t_fx SET v = v + 1 WHERE id = 1"); e != nil {
+						fxFailed = true
+						return errRollback
 					}
 				case "at-tx":
 					tx, e := atDB.BeginTx(ctx, nil)
@@ -184,7 +202,7 @@ func runC20(t *testing.T, seed uint64, planJSON []byte, tier string) (res *Resul
 				}
 				return nil
 			})
-			if wantRollback && err != nil && (errors.Is(err, errRollback) || strings.Contains(err.Error(), errRollback.Error())) {
+			if (wantRollback || fxFailed) && err != nil && (errors.Is(err, errRollback) || strings.Contains(err.Error(), errRollback.Error())) {
 				return kind, false, nil
 			}
 			return kind, err == nil, err
